@@ -18,7 +18,7 @@ func init() { register(&Spec{ID: "C14", Targets: []load.Target{load.Linux, load.
 
 func runC14(c *core.Ctx) {
 	runFixtures(c, "drop", "nilguard", "once", "notexist")
-	c.Explain("Structural clauses of C14 decided from source; 'inject a fault at each store call index' becomes 'follow the error edge of each fallible call': (R14.1) the []OpResult of every Transaction.Commit in packages keyvalue/mem is not discarded: it is returned to a caller that reads it, or each element's Err is read and reaches a return; (R14.2) for every fallible call in package keyvalue (Store/Transaction/FileRecord/blob calls, save, setFile, getFile…, on both the serial-fallback and TransactionStore paths) the error is returned, wrapped or handed on along every failing path (accepted: errors.Is(ErrNotExist/ErrExist) look-up idioms — those are not store failures —, closing read-only handles, aborting on an error path); (R14.3a) the pointer/interface result that came with a non-nil error is never invoked or dereferenced on that path; (R14.3b) a struct field assigned together with an error field from one call is never invoked without a dominating nil-test of it or of the paired error; (R14.4) each Go-level Transaction implementation stores the store's Get/Set error into the recorded OpResult.Err. (R14.5) a function of package keyvalue that answers a list of paths with slices allocated as make(T, len(paths)) returns those slices on every path: a nil or shorter slice on the store-failure path makes the callers, which index by path, panic instead of returning the error. (R14.6) where an operation stores a record under a new name and deletes it under the old one in one transaction (Rename of a file), the store is issued with a handler that aborts the transaction when the store's result carries an error — with a plain Set the serial fallback runs the delete although the store was refused, and the file exists under neither name. (R14.7) every closure given to sync.Once.Do in package keyvalue that calls something fallible stores the error into a field, never into a captured local (later calls skip the closure); (R14.8) a function of keyvalue/mem that reads an OpResult returns the ErrNotExist sentinel only where that OpResult's Err was found nil. (R14.9) a function handed a non-nil error returns one except on the ErrNotExist/ErrExist edges; (R14.10) memoised (value, error) pairs are returned together; (R14.11) a whole-look-up failure is reported for every path. NOT claimed: that a fresh look-up shows exactly what the store holds after a fault, hang-freedom, panics from index expressions on result slices, examples/s3 (not loadable offline).")
+	c.Explain("Structural clauses of C14 decided from source; 'inject a fault at each store call index' becomes 'follow the error edge of each fallible call': (R14.1) the []OpResult of every Transaction.Commit in packages keyvalue/mem is not discarded: it is returned to a caller that reads it, or each element's Err is read and reaches a return; (R14.2) for every fallible call in package keyvalue (Store/Transaction/FileRecord/blob calls, save, setFile, getFile…, on both the serial-fallback and TransactionStore paths) the error is returned, wrapped or handed on along every failing path (accepted: errors.Is(ErrNotExist/ErrExist) look-up idioms — those are not store failures —, closing read-only handles, aborting on an error path); (R14.3a) the pointer/interface result that came with a non-nil error is never invoked or dereferenced on that path; (R14.3b) a struct field assigned together with an error field from one call is never invoked without a dominating nil-test of it or of the paired error; (R14.4) each Go-level Transaction implementation stores the store's Get/Set error into the recorded OpResult.Err. (R14.5) a function of package keyvalue that answers a list of paths with slices allocated as make(T, len(paths)) returns those slices on every path: a nil or shorter slice on the store-failure path makes the callers, which index by path, panic instead of returning the error. (R14.6) where an operation stores a record under a new name and deletes it under the old one in one transaction (Rename of a file), the store is issued with a handler that aborts the transaction when the store's result carries an error — with a plain Set the serial fallback runs the delete although the store was refused, and the file exists under neither name. (R14.7) every closure given to sync.Once.Do in package keyvalue that calls something fallible stores the error into a field, never into a captured local (later calls skip the closure); (R14.8) a function of keyvalue/mem that reads an OpResult returns the ErrNotExist sentinel only where that OpResult's Err was found nil. (R14.9) a function handed a non-nil error returns one except on the ErrNotExist/ErrExist edges; (R14.10) memoised (value, error) pairs are returned together; (R14.11) a whole-look-up failure is reported for every path. (R14.12) = R18.6: every transaction begun in package keyvalue is committed or aborted on every path. NOT claimed: that a fresh look-up shows exactly what the store holds after a fault, hang-freedom, panics from index expressions on result slices, examples/s3 (not loadable offline).")
 	c.Assume("A1: a Store/Transaction/FileRecord implementation reports failure through its error result", "A6: partial correctness")
 	c.RuleDoc("R14.1", "commit results are read")
 	c.RuleDoc("R14.2", "no store-layer error dropped on any failing path in package keyvalue")
